@@ -285,6 +285,13 @@ const DIRECTED: &[(&str, &str, &str)] = &[
     ("unterminated_query", "(module", "pass"),
     ("lone_brace", "{", "pass"),
     ("nul_char", "(module) { print \"\0\" }", "pass"),
+    ("scoped_loop_variable", "(identifier) @x { for @x.v in [1] { print @x.v } }", "x = y\n"),
+    ("scoped_set_target", "(identifier) @x { var @x.v = 1 set @x.v = 2 node n attr (n) v = @x.v }", "x = y\n"),
+    ("mutually_recursive_scoped_variables", "(identifier) @x { let @x.a = @x.b let @x.b = @x.a node n attr (n) v = @x.a }", "x = y\n"),
+    ("self_recursive_local", "(identifier) @x { node n attr (n) v = @x.a }\n(identifier) @x { let @x.a = @x.a }", "x = y\n"),
+    ("scope_read_through_same_name", "(module (expression_statement (assignment left: (identifier) @x))) @m { let @m.a = @x let @m.a.a = 1 node n attr (n) v = @x.a }", "x = y\n"),
+    ("scope_is_string", "(module) @m { let s = \"text\" let s.a = 1 }", "pass\n"),
+    ("scoped_definition_while_forcing", "(identifier) @x { let @x.a = 1 }\n(identifier) @x { node n attr (n) v = @x.a let (first-of @x.a).b = 2 }", "x = y\n"),
     ("plus_on_top_of_star_quantifier", "(identifier)*+ @xs { node n attr (n) x = @xs }", "x = y\n"),
 ];
 
